@@ -1,8 +1,8 @@
 // C12: method names resolve to exactly the registered handler, or fail cleanly.
 //
 // Bounded-exhaustive: every method-name string of a segment grammar (plus every
-// proper prefix/suffix of the registered full names) x {Invoke, NewStream} x
-// registered sets {none, {A}, {A,B}} x {in-process, httpgrpc.Server, ServeMux
+// prefix/suffix of the registered full names) x {Invoke, NewStream} x
+// registered sets {none, {A}, {A,B}, D} x {in-process, httpgrpc.Server, ServeMux
 // filled by httpgrpc.HandleServices} x base paths (identical on client and
 // server). Per-method invocation counters say which handler ran.
 //
@@ -15,6 +15,15 @@
 // the same: only the exact string "/service/method" denotes the handler; a name
 // that merely decodes (or is cut at '?' / '#') to a registered one is unknown.
 // The HTTP carrier hands the server the request-target as it crosses the wire.
+//
+// Descriptor and decoration dimensions (descs.go): NewStream's *grpc.StreamDesc
+// argument (bare client-made / client-made with a registered StreamName / the
+// registered descriptor object of the named or of another stream or service / a
+// handler-carrying descriptor registered nowhere) and the way the services got
+// into the registry (RegisterService directly / through grpchan.WithInterceptor
+// with counting interceptors), crossed with names, registry sets and transports.
+// Registry set D (two streams in one service, a stream of the same simple name
+// in another) joins the sets. The oracle is unchanged: the name alone decides.
 package main
 
 import (
@@ -59,8 +68,8 @@ var (
 	defA = svcDef{Name: "pkg.A", Unary: []string{"M"}, Streams: []string{"S"}}
 	defB = svcDef{Name: "pkg.B", Unary: []string{"M", "M2"}}
 	sets = map[string][]svcDef{"none": nil, "A": {defA}, "AB": {defA, defB}}
-	// simplest first
-	setOrder = []string{"none", "A", "AB"}
+	// simplest first ("D" is defined in descs.go)
+	setOrder = []string{"none", "A", "AB", "D"}
 )
 
 // kindOf returns "unary", "stream" or "" for service/method in the set.
@@ -92,6 +101,12 @@ type caseT struct {
 	// cross-mount cases: the client is configured with this base path, which
 	// denotes another mount than the server's Base
 	ClientBase string `json:"client_base,omitempty"`
+	// how the services got into the registry: "" RegisterService directly,
+	// "interceptor" through grpchan.WithInterceptor (descs.go)
+	Deco string `json:"deco,omitempty"`
+	// NewStream: the StreamDesc the client passes (descs.go); "" is the bare
+	// client-made one
+	Desc string `json:"desc,omitempty"`
 }
 
 // ---- the real thing under test ---------------------------------------------
@@ -104,6 +119,13 @@ type config struct {
 	mu       sync.Mutex
 	srvPanic string
 	sent     int64 // requests that reached the carrier (HTTP transports)
+	// descs.go: what a client may pass to NewStream; the interceptors' counters
+	descs   map[string]*grpc.StreamDesc
+	descIDs []string
+	icounts map[string]int64
+	itotal  int64 // runs of any interceptor
+	ctrs    []*int64
+	before  []int64
 }
 
 type recoverH struct {
@@ -123,14 +145,33 @@ func (r recoverH) ServeHTTP(w http.ResponseWriter, req *http.Request) {
 	r.h.ServeHTTP(w, req)
 }
 
-func build(transport, base, set string) (cfg *config, err error) {
+func build(transport, base, set, deco string) (cfg *config, err error) {
 	defer func() {
 		if p := recover(); p != nil {
 			err = fmt.Errorf("registration panicked (precondition of the mux, not decided here): %v", p)
 		}
 	}()
-	cfg = &config{counts: map[string]*int64{}}
+	cfg = &config{counts: map[string]*int64{}, icounts: map[string]int64{}}
 	var descs []*grpc.ServiceDesc
+	streamFn := func(key string) common.StreamFn {
+		n := new(int64)
+		cfg.counts[key] = n
+		cfg.keys = append(cfg.keys, key)
+		return func(str grpc.ServerStream) error {
+			atomic.AddInt64(n, 1)
+			for {
+				var in wrapperspb.StringValue
+				err := str.RecvMsg(&in)
+				if err == io.EOF {
+					break
+				}
+				if err != nil {
+					return err
+				}
+			}
+			return str.SendMsg(wrapperspb.String(key))
+		}
+	}
 	for _, d := range sets[set] {
 		d := d
 		s := &common.Svc{Name: d.Name, Unary: map[string]common.UnaryFn{}, Streams: map[string]common.StreamDef{}}
@@ -149,48 +190,46 @@ func build(transport, base, set string) (cfg *config, err error) {
 			}
 		}
 		for _, m := range d.Streams {
-			key := d.Name + "/" + m
-			n := new(int64)
-			cfg.counts[key] = n
-			cfg.keys = append(cfg.keys, key)
-			s.Streams[m] = common.StreamDef{ClientStreams: true, ServerStreams: true, Fn: func(str grpc.ServerStream) error {
-				atomic.AddInt64(n, 1)
-				for {
-					var in wrapperspb.StringValue
-					err := str.RecvMsg(&in)
-					if err == io.EOF {
-						break
-					}
-					if err != nil {
-						return err
-					}
-				}
-				return str.SendMsg(wrapperspb.String(key))
-			}}
+			s.Streams[m] = common.StreamDef{ClientStreams: true, ServerStreams: true, Fn: streamFn(d.Name + "/" + m)}
 		}
 		descs = append(descs, s.Desc())
 	}
+	cfg.buildDescs(set, descs, func(key, name string) grpc.StreamDesc {
+		fn := streamFn(key)
+		return grpc.StreamDesc{StreamName: name, ClientStreams: true, ServerStreams: true,
+			Handler: func(srv interface{}, stream grpc.ServerStream) error { return fn(stream) }}
+	})
 	sort.Strings(cfg.keys)
+	// the decoration dimension: every service goes through this view of the registry
+	via := func(reg grpchan.ServiceRegistry) grpchan.ServiceRegistry {
+		switch deco {
+		case "":
+			return reg
+		case "interceptor":
+			return grpchan.WithInterceptor(reg, cfg.unaryInt, cfg.streamInt)
+		}
+		panic("harness: unknown decoration " + deco)
+	}
 
 	var h http.Handler
 	switch transport {
 	case "inproc":
 		ch := &inprocgrpc.Channel{}
 		for _, d := range descs {
-			ch.RegisterService(d, common.Impl{})
+			via(ch).RegisterService(d, common.Impl{})
 		}
 		cfg.cc = ch
 		return cfg, nil
 	case "http-server":
 		s := httpgrpc.NewServer(httpgrpc.WithBasePath(base))
 		for _, d := range descs {
-			s.RegisterService(d, common.Impl{})
+			via(s).RegisterService(d, common.Impl{})
 		}
 		h = s
 	case "http-mux":
 		reg := grpchan.HandlerMap{}
 		for _, d := range descs {
-			reg.RegisterService(d, common.Impl{})
+			via(reg).RegisterService(d, common.Impl{})
 		}
 		mux := http.NewServeMux()
 		httpgrpc.HandleServices(mux.HandleFunc, base, reg, nil, nil)
@@ -208,22 +247,35 @@ func (cfg *config) client(base string) grpc.ClientConnInterface {
 }
 
 type obsT struct {
-	Ran     map[string]int64 `json:"ran,omitempty"`
-	Err     string           `json:"err,omitempty"`
-	Code    string           `json:"code,omitempty"`
-	Reply   string           `json:"reply,omitempty"`
-	Panic   string           `json:"panic,omitempty"`
-	Sent    int64            `json:"requests_sent"`
-	err     error
-	isStat  bool
-	code    codes.Code
-	srvSide bool
+	Ran map[string]int64 `json:"ran,omitempty"`
+	// runs of the interceptors of a decorated registry, by "interceptor <FullMethod>"
+	Intercepted map[string]int64 `json:"intercepted,omitempty"`
+	Err         string           `json:"err,omitempty"`
+	Code        string           `json:"code,omitempty"`
+	Reply       string           `json:"reply,omitempty"`
+	Panic       string           `json:"panic,omitempty"`
+	Sent        int64            `json:"requests_sent"`
+	err         error
+	isStat      bool
+	code        codes.Code
+	srvSide     bool
 }
 
 func run(cfg *config, c caseT) (o obsT) {
-	before := map[string]int64{}
-	for k, n := range cfg.counts {
-		before[k] = atomic.LoadInt64(n)
+	if cfg.ctrs == nil {
+		for _, k := range cfg.keys {
+			cfg.ctrs = append(cfg.ctrs, cfg.counts[k])
+		}
+		cfg.before = make([]int64, len(cfg.ctrs))
+	}
+	before := cfg.before // one case at a time per configuration
+	for i, n := range cfg.ctrs {
+		before[i] = atomic.LoadInt64(n)
+	}
+	itotal := atomic.LoadInt64(&cfg.itotal)
+	var ibefore map[string]int64
+	if c.Deco != "" {
+		ibefore = cfg.interceptorSnapshot()
 	}
 	cfg.mu.Lock()
 	cfg.srvPanic = ""
@@ -250,7 +302,15 @@ func run(cfg *config, c caseT) (o obsT) {
 			}
 			return
 		}
-		cs, err := cc.NewStream(ctx, &grpc.StreamDesc{StreamName: "x", ClientStreams: true, ServerStreams: true}, c.Name)
+		desc := cfg.descs[c.Desc]
+		if desc == nil {
+			panic("harness: no descriptor " + c.Desc + " in this configuration")
+		}
+		if desc.Handler == nil {
+			d := *desc // client-made: a fresh object per call
+			desc = &d
+		}
+		cs, err := cc.NewStream(ctx, desc, c.Name)
 		if err != nil {
 			o.err = err
 			return
@@ -282,12 +342,22 @@ func run(cfg *config, c caseT) (o obsT) {
 		o.Panic = p
 		o.srvSide = true
 	}
-	for k, n := range cfg.counts {
-		if d := atomic.LoadInt64(n) - before[k]; d != 0 {
+	for i, n := range cfg.ctrs {
+		if d := atomic.LoadInt64(n) - before[i]; d != 0 {
 			if o.Ran == nil {
 				o.Ran = map[string]int64{}
 			}
-			o.Ran[k] = d
+			o.Ran[cfg.keys[i]] = d
+		}
+	}
+	if c.Deco != "" || atomic.LoadInt64(&cfg.itotal) != itotal {
+		for k, n := range cfg.interceptorSnapshot() {
+			if d := n - ibefore[k]; d != 0 {
+				if o.Intercepted == nil {
+					o.Intercepted = map[string]int64{}
+				}
+				o.Intercepted[k] = d
+			}
 		}
 	}
 	if o.err != nil {
@@ -323,13 +393,20 @@ func (wfT) MatchString(s string) bool {
 
 // normalise: leading slash added, repeated and trailing slashes dropped.
 func normalise(name string) string {
-	var segs []string
-	for _, s := range strings.Split(name, "/") {
-		if s != "" {
-			segs = append(segs, s)
+	b := make([]byte, 0, len(name)+1)
+	for i := 0; i < len(name); i++ {
+		if name[i] == '/' {
+			continue
 		}
+		if i == 0 || name[i-1] == '/' {
+			b = append(b, '/') // a segment starts
+		}
+		b = append(b, name[i])
 	}
-	return "/" + strings.Join(segs, "/")
+	if len(b) == 0 {
+		return "/"
+	}
+	return string(b)
 }
 
 func shape(name string) string {
@@ -394,6 +471,13 @@ func check(c caseT, o obsT) (clause, detail string) {
 }
 
 func checkAs(c caseT, o obsT, class, must, may string, code *codes.Code) (clause, detail string) {
+	if clause, detail = checkBase(c, o, class, must, may, code); clause != "" {
+		return clause, detail
+	}
+	return checkIntercept(c, o)
+}
+
+func checkBase(c caseT, o obsT, class, must, may string, code *codes.Code) (clause, detail string) {
 	if o.Panic != "" {
 		side := "client"
 		if o.srvSide {
@@ -479,15 +563,56 @@ func fingerprint(c caseT, clause string, o obsT) string {
 		if len(msg) > 80 {
 			msg = msg[:80]
 		}
+		if c.Desc != "" {
+			// a descriptor other than the bare one is part of the input
+			return fmt.Sprintf("C12|%s|%s|desc=%s|shape=%q|panic|%s", where, c.Op, c.Desc, shape(c.Name), msg)
+		}
 		return fmt.Sprintf("C12|%s|%s|shape=%q|panic|%s", where, c.Op, shape(c.Name), msg)
 	}
-	return fmt.Sprintf("C12|%s|set=%s|%s|name=%q|%s", where, c.Set, c.Op, c.Name, clause)
+	set := "set=" + c.Set
+	if c.Deco != "" {
+		set += "|deco=" + c.Deco
+	}
+	if c.Desc != "" {
+		// the descriptor dimension: the relation of the descriptor to the name and
+		// the clause (which carries the class of the name) identify the input; the
+		// spelling of the name collapses (the replay object has the exact case)
+		rel := descRelation(c.Set, c.Desc, c.Name)
+		if rel == "client-named" {
+			rel = c.Desc // no Handler: the StreamName is what could matter
+		}
+		return fmt.Sprintf("C12|%s|%s|%s|desc=%s|%s", where, set, c.Op, rel, clause)
+	}
+	if strings.HasPrefix(clause, "interceptor-") {
+		// the handler / interceptor that ran matters, not the spelling of the name
+		h := append(sortedKeys(o.Ran), sortedKeys(o.Intercepted)...)
+		return fmt.Sprintf("C12|%s|%s|%s|ran=%s|%s", where, set, c.Op, h[0], clause)
+	}
+	return fmt.Sprintf("C12|%s|%s|%s|name=%q|%s", where, set, c.Op, c.Name, clause)
+}
+
+var errUnimpl = status.Error(codes.Unimplemented, "synthetic")
+
+// unimplCode: the code an unknown name has to fail with on the transport
+func unimplCode(transport string) codes.Code {
+	if transport == "inproc" {
+		return codes.Unimplemented
+	}
+	return codes.NotFound
 }
 
 // ---- the grammar -----------------------------------------------------------
 
-func names(maxSegs int) []string {
-	segs := []string{"", "pkg.A", "pkg.B", "A", "pkg", "M", "S", "M2", "x"}
+var segAlphabet = []string{"", "pkg.A", "pkg.B", "A", "pkg", "M", "S", "M2", "x"}
+
+func names(maxSegs int) []string { return namesOf(maxSegs, true) }
+
+// namesOf: the segment strings, the prefixes and suffixes of the registered full
+// names and (sweep) the single edits of the registered full names; without the
+// sweep, every registered full name with one more segment before or after it
+// joins instead, so that the shorter list has "extra segments" too.
+func namesOf(maxSegs int, sweep bool) []string {
+	segs := segAlphabet
 	seen := map[string]bool{}
 	var out []string
 	add := func(s string) {
@@ -509,8 +634,8 @@ func names(maxSegs int) []string {
 		}
 	}
 	rec(nil)
-	for _, full := range []string{"/pkg.A/M", "/pkg.A/S", "/pkg.B/M", "/pkg.B/M2"} {
-		for i := 0; i < len(full); i++ {
+	for _, full := range fullNames(sets["D"]) { // a superset of the other sets' names
+		for i := 0; i <= len(full); i++ {
 			add(full[:i]) // proper prefixes, "" included
 			if i > 0 {
 				add(full[i:]) // proper suffixes
@@ -519,8 +644,17 @@ func names(maxSegs int) []string {
 	}
 	// single edits of the registered full names with escapes, URL specials and
 	// dot-segments (tokens.go)
-	for _, s := range sweepNames(sets["AB"]) {
-		add(s)
+	if sweep {
+		for _, s := range sweepNames(sets["D"]) {
+			add(s)
+		}
+	} else {
+		for _, f := range fullNames(sets["D"]) {
+			for _, s := range segAlphabet {
+				add(f + "/" + s)
+				add("/" + s + f)
+			}
+		}
 	}
 	sort.SliceStable(out, func(i, j int) bool {
 		a, b := out[i], out[j]
@@ -566,7 +700,50 @@ type result struct {
 
 var progress int64
 var stopProfile = func() {}
-var inflight sync.Map
+
+// the case each job is running, for the watchdog's report
+type slotT struct {
+	mu     sync.Mutex
+	c      caseT
+	active bool
+}
+
+func (s *slotT) set(c caseT) {
+	s.mu.Lock()
+	s.c, s.active = c, true
+	s.mu.Unlock()
+}
+
+func (s *slotT) clear() {
+	s.mu.Lock()
+	s.active = false
+	s.mu.Unlock()
+}
+
+var (
+	slotsMu sync.Mutex
+	slots   []*slotT
+)
+
+func newSlot() *slotT {
+	s := &slotT{}
+	slotsMu.Lock()
+	slots = append(slots, s)
+	slotsMu.Unlock()
+	return s
+}
+
+// what the evidence counts per (op, grammar, decoration, descriptor relation, class, outcome)
+type statKey struct {
+	op, prefix, rel, class, outcome string
+	deco                            bool
+}
+
+type statT struct {
+	cls, smp string // keys of by_class_and_outcome and of the samples
+	n        int
+	sample   interface{}
+}
 
 func watchdog() {
 	last := int64(-1)
@@ -581,7 +758,15 @@ func watchdog() {
 		stale++
 		if stale >= 6 {
 			fmt.Fprintln(os.Stderr, "INCONCLUSIVE: no case completed for 30 s; in flight:")
-			inflight.Range(func(k, v interface{}) bool { fmt.Fprintf(os.Stderr, "  %+v\n", v); return true })
+			slotsMu.Lock()
+			for _, s := range slots {
+				s.mu.Lock()
+				if s.active {
+					fmt.Fprintf(os.Stderr, "  %+v\n", s.c)
+				}
+				s.mu.Unlock()
+			}
+			slotsMu.Unlock()
 			os.Exit(2)
 		}
 	}
@@ -605,17 +790,20 @@ func main() {
 			fmt.Fprintln(os.Stderr, "INCONCLUSIVE:", err)
 			os.Exit(2)
 		}
-		cfg, err := build(c.Transport, c.Base, c.Set)
+		cfg, err := build(c.Transport, c.Base, c.Set, c.Deco)
+		if err == nil && c.Op == "NewStream" && cfg.descs[c.Desc] == nil {
+			err = fmt.Errorf("no descriptor %q in the universe of set %s", c.Desc, c.Set)
+		}
 		if err != nil {
 			fmt.Fprintln(os.Stderr, "INCONCLUSIVE:", err)
 			os.Exit(2)
 		}
-		inflight.Store(0, c)
+		newSlot().set(c)
 		o := run(cfg, c)
 		clause, detail := check(c, o)
 		class, must, may, _ := classify(c)
-		fmt.Printf("replay: case=%+v class=%s must=%q may=%q\n  observed: ran=%v err=%q code=%s reply=%q panic=%q\n  verdict: %s %s\n",
-			c, class, must, may, o.Ran, o.Err, o.Code, o.Reply, o.Panic, clause, detail)
+		fmt.Printf("replay: case=%+v class=%s must=%q may=%q descriptor=%s\n  observed: ran=%v intercepted=%v err=%q code=%s reply=%q panic=%q\n  verdict: %s %s\n",
+			c, class, must, may, descRelation(c.Set, c.Desc, c.Name), o.Ran, o.Intercepted, o.Err, o.Code, o.Reply, o.Panic, clause, detail)
 		if clause != "" {
 			fmt.Printf("VIOLATION property=C12 replay=%s\n", p)
 			os.Exit(1)
@@ -649,14 +837,30 @@ func main() {
 			os.Exit(2)
 		}
 	}
+	if msg := selfTestDescs(); msg != "" {
+		fmt.Fprintln(os.Stderr, "INCONCLUSIVE: self-test of the descriptor / decoration dimensions failed:", msg)
+		os.Exit(2)
+	}
+	// shorter name lists for the parts of the new dimensions that are swept rather
+	// than crossed: the core names, and (thorough tier) the quick tier's whole list
+	core := namesOf(3, false)
+	midList := nameList
+	if rep.Tier == "thorough" {
+		midList = names(4)
+	}
 
 	// one job per (transport, base, set) for the segment grammar, and per
 	// (transport, base, op, slice of the index range) for the token grammar:
 	// independent real instances; results are gathered and reported in
 	// enumeration order, so the run is deterministic.
 	type job struct {
-		tr  transportT
-		set string
+		tr   transportT
+		set  string
+		deco string
+		// segment grammar jobs: names x ops with the bare descriptor, or (descs)
+		// names x NewStream x every other descriptor of the universe
+		names []string
+		descs bool
 		// token grammar jobs: the strings lo..hi-1 of ts, one op
 		ts     *tokenSpace
 		op     string
@@ -672,37 +876,84 @@ func main() {
 	}
 	const maxResPerJob = 500
 	var jobs []*job
-	newJob := func(tr transportT, set string) *job {
-		j := &job{tr: tr, set: set, cls: map[string]int{}, smp: map[string]interface{}{}}
+	newJob := func(tr transportT, set, deco string, names []string) *job {
+		j := &job{tr: tr, set: set, deco: deco, names: names, cls: map[string]int{}, smp: map[string]interface{}{}}
 		jobs = append(jobs, j)
 		return j
-	}
-	for _, tr := range trs {
-		for _, set := range setOrder {
-			newJob(tr, set)
-		}
-	}
-	const slice = 60000
-	addTok := func(tr transportT, ts *tokenSpace, from int64) {
-		for _, op := range ops {
-			for lo := from; lo < ts.size(); lo += slice {
-				j := newJob(tr, "T")
-				j.ts, j.op, j.lo, j.hi = ts, op, lo, lo+slice
-				if j.hi > ts.size() {
-					j.hi = ts.size()
-				}
-			}
-		}
 	}
 	longOn := map[transportT]bool{{"inproc", ""}: true}
 	for _, b := range []string{"/", "/foo/", "/c%d/x"} {
 		longOn[transportT{"http-server", b}] = true
 		longOn[transportT{"http-mux", b}] = true
 	}
+	decos := []string{"", "interceptor"}
+	richSets := []string{"AB", "D"}
 	for _, tr := range trs {
-		addTok(tr, toks, 0)
+		for _, set := range setOrder {
+			if set == "D" && !longOn[tr] {
+				newJob(tr, set, "", midList) // (thorough: the quick tier's list)
+			} else {
+				newJob(tr, set, "", nameList)
+			}
+		}
+	}
+	// decoration: the two richest registries registered through WithInterceptor;
+	// the whole name list in-process, the quick tier's whole list on the HTTP
+	// carriers where the long token strings run, the core names elsewhere
+	for _, tr := range trs {
+		for _, set := range richSets {
+			switch {
+			case tr.kind == "inproc":
+				newJob(tr, set, "interceptor", nameList)
+			case longOn[tr]:
+				newJob(tr, set, "interceptor", midList)
+			default:
+				newJob(tr, set, "interceptor", core)
+			}
+		}
+	}
+	// descriptors x decoration: in-process every set and the whole name list; over
+	// HTTP, where the descriptor never crosses the wire, the richest set with the
+	// core names (thorough: the quick tier's whole list where the long token
+	// strings run)
+	for _, tr := range trs {
+		for _, deco := range decos {
+			switch {
+			case tr.kind == "inproc":
+				for _, set := range setOrder {
+					newJob(tr, set, deco, nameList).descs = true
+				}
+			case longOn[tr] && rep.Tier == "thorough":
+				newJob(tr, "D", deco, midList).descs = true
+			default:
+				newJob(tr, "D", deco, core).descs = true
+			}
+		}
+	}
+	const slice = 60000
+	addTok := func(tr transportT, ts *tokenSpace, from int64, descs bool) {
+		for _, op := range ops {
+			if descs && op != "NewStream" {
+				continue
+			}
+			for lo := from; lo < ts.size(); lo += slice {
+				j := newJob(tr, "T", "", nil)
+				j.ts, j.op, j.lo, j.hi, j.descs = ts, op, lo, lo+slice, descs
+				if j.hi > ts.size() {
+					j.hi = ts.size()
+				}
+			}
+		}
+	}
+	for _, tr := range trs {
+		addTok(tr, toks, 0, false)
 		if longOn[tr] {
-			addTok(tr, toksLong, toksLong.offs[toksLong.maxLen]) // the longest strings only
+			addTok(tr, toksLong, toksLong.offs[toksLong.maxLen], false) // the longest strings only
+		}
+		if tr.kind == "inproc" {
+			// the token strings x every other descriptor of T's universe
+			addTok(tr, toks, 0, true)
+			addTok(tr, toksLong, toksLong.offs[toksLong.maxLen], true)
 		}
 	}
 	var wg sync.WaitGroup
@@ -717,25 +968,53 @@ func main() {
 			defer wg.Done()
 			sem <- struct{}{}
 			defer func() { <-sem }()
-			cfg, err := build(j.tr.kind, j.tr.base, j.set)
+			cfg, err := build(j.tr.kind, j.tr.base, j.set, j.deco)
 			if err != nil {
 				j.err = err
 				return
 			}
+			otherDescs := cfg.descIDs[1:] // [0] is the bare one
+			slot := newSlot()
+			stats := map[statKey]*statT{}
+			defer func() {
+				for _, st := range stats {
+					j.cls[st.cls] += st.n
+					if st.sample != nil {
+						j.smp[st.smp] = st.sample
+					}
+				}
+			}()
 			one := func(c caseT, prefix string, minSlashes int, nearMiss bool) {
 				class, must, may, code := classify(c)
-				inflight.Store(ji, c)
+				sk := statKey{op: c.Op, prefix: prefix, class: class, deco: c.Deco != ""}
+				if c.Desc != "" {
+					sk.rel = descRelation(c.Set, c.Desc, c.Name)
+				}
+				slot.set(c)
 				o := run(cfg, c)
 				atomic.AddInt64(&progress, 1)
 				j.n++
-				outcome := "clean-failure"
+				sk.outcome = "clean-failure"
 				if len(o.Ran) > 0 {
-					outcome = "handler-ran"
+					sk.outcome = "handler-ran"
 				}
 				if o.Panic != "" {
-					outcome = "panic"
+					sk.outcome = "panic"
 				}
-				j.cls[prefix+class+"/"+outcome]++
+				st := stats[sk]
+				if st == nil {
+					full := prefix
+					if sk.deco {
+						full += "intercepted:"
+					}
+					if sk.rel != "" {
+						full += "desc=" + sk.rel + ":"
+					}
+					st = &statT{cls: full + class + "/" + sk.outcome}
+					st.smp = c.Op + "/" + j.tr.kind + "/" + st.cls
+					stats[sk] = st
+				}
+				st.n++
 				if j.set != "none" {
 					j.nt++
 				}
@@ -746,51 +1025,67 @@ func main() {
 						j.more++
 					}
 				}
-				if k := c.Op + "/" + j.tr.kind + "/" + prefix + class + "/" + outcome; j.smp[k] == nil && strings.Count(c.Name, "/") >= minSlashes {
-					j.smp[k] = map[string]interface{}{"case": c, "class": class, "observed": o}
+				if st.sample == nil && strings.Count(c.Name, "/") >= minSlashes {
+					st.sample = map[string]interface{}{"case": c, "class": class, "observed": o}
 				}
 				if nearMiss {
 					// an unregistered name that decodes / truncates to a registered one
 					j.near++
-					if k := "near-miss/" + c.Op + "/" + j.tr.kind + "/" + prefix; j.smp[k] == nil && strings.HasPrefix(c.Name, "/") {
+					if k := "near-miss/" + c.Op + "/" + j.tr.kind + "/" + prefix + map[bool]string{true: "intercepted:"}[sk.deco]; j.smp[k] == nil && strings.HasPrefix(c.Name, "/") {
 						j.smp[k] = map[string]interface{}{"case": c, "class": class, "near_miss": true, "observed": o}
 					}
 				}
 			}
+			defer slot.clear()
 			if j.ts != nil {
 				for i := j.lo; i < j.hi; i++ {
 					c := caseT{Transport: j.tr.kind, Base: j.tr.base, Set: j.set, Op: j.op, Name: j.ts.name(i)}
-					one(c, "tokens:", 2, decodesToRegistered(c.Set, c.Op, c.Name))
+					if !j.descs {
+						one(c, "tokens:", 2, decodesToRegistered(c.Set, c.Op, c.Name))
+						continue
+					}
+					for _, id := range otherDescs {
+						c.Desc = id
+						one(c, "tokens:", 2, false)
+					}
 				}
-				inflight.Delete(ji)
+				return
+			}
+			if j.descs {
+				for _, name := range j.names {
+					for _, id := range otherDescs {
+						one(caseT{Transport: j.tr.kind, Base: j.tr.base, Set: j.set, Deco: j.deco, Op: "NewStream", Name: name, Desc: id}, "", 2, false)
+					}
+				}
 				return
 			}
 			for _, op := range ops {
-				for _, name := range nameList {
-					c := caseT{Transport: j.tr.kind, Base: j.tr.base, Set: j.set, Op: op, Name: name}
+				for _, name := range j.names {
+					c := caseT{Transport: j.tr.kind, Base: j.tr.base, Set: j.set, Deco: j.deco, Op: op, Name: name}
 					one(c, "", 2, decodesToRegistered(c.Set, c.Op, c.Name))
 				}
 			}
 			// cross-mount: same server, the client configured with every base path
 			// of the alphabet that denotes another mount; the registered full names
-			if j.tr.kind != "inproc" && j.set == "AB" {
+			if j.tr.kind != "inproc" && j.deco == "" && (j.set == "AB" || j.set == "D") {
 				for _, cb := range basePaths(rep.Tier) {
 					if path.Clean(cb) == path.Clean(j.tr.base) {
 						continue
 					}
 					for _, op := range ops {
-						for _, name := range []string{"/pkg.A/M", "/pkg.A/S", "/pkg.B/M", "/pkg.B/M2"} {
+						for _, name := range fullNames(sets[j.set]) {
 							one(caseT{Transport: j.tr.kind, Base: j.tr.base, Set: j.set, Op: op, Name: name, ClientBase: cb}, "", 0, false)
 						}
 					}
 				}
 			}
-			inflight.Delete(ji)
 		}(ji, j)
 	}
 	wg.Wait()
 
 	evals, nontrivial, near, nearTok, tokEvals, truncated, tokJobs := 0, 0, 0, 0, 0, 0, 0
+	descEvals, descHandlerEvals, decoEvals := 0, 0, 0
+	configs := map[string]bool{}
 	classes := map[string]int{}
 	var samples []interface{}
 	allSmp := map[string]interface{}{}
@@ -801,6 +1096,21 @@ func main() {
 		}
 		evals += j.n
 		nontrivial += j.nt
+		configs[fmt.Sprint(j.tr, "|", j.set, "|", j.deco)] = true
+		if j.descs {
+			descEvals += j.n
+			ids := descIDs(j.set)[1:]
+			h := 0
+			for _, id := range ids {
+				if carriesHandler(id) {
+					h++
+				}
+			}
+			descHandlerEvals += j.n / len(ids) * h
+		}
+		if j.deco != "" {
+			decoEvals += j.n
+		}
 		near += j.near
 		truncated += j.more
 		if j.ts != nil {
@@ -812,12 +1122,13 @@ func main() {
 			classes[k] += v
 		}
 		for k, v := range j.smp {
-			if (j.set == "AB" || j.set == "T") && j.tr.base != "/" && allSmp[k] == nil {
+			if (j.set == "AB" || j.set == "T" || (j.set == "D" && j.descs)) && j.tr.base != "/" && allSmp[k] == nil {
 				allSmp[k] = v
 			}
 		}
 		for _, r := range j.res {
-			rep.Violation(fingerprint(r.c, r.clause, r.o), fmt.Sprintf("%s %s %q on %s base=%q set=%s: %s: %s", r.c.Op, "name", r.c.Name, r.c.Transport, r.c.Base+map[bool]string{true: "\" client-base=\"" + r.c.ClientBase}[r.c.ClientBase != ""], r.c.Set, r.clause, r.detail), r.c)
+			rep.Violation(fingerprint(r.c, r.clause, r.o), fmt.Sprintf("%s %s %q on %s base=%q set=%s%s: %s: %s", r.c.Op, "name", r.c.Name, r.c.Transport, r.c.Base+map[bool]string{true: "\" client-base=\"" + r.c.ClientBase}[r.c.ClientBase != ""], r.c.Set,
+				map[bool]string{true: " registered through WithInterceptor"}[r.c.Deco != ""]+map[bool]string{true: " descriptor=" + r.c.Desc + " (" + descRelation(r.c.Set, r.c.Desc, r.c.Name) + ")"}[r.c.Desc != ""], r.clause, r.detail), r.c)
 		}
 	}
 	if truncated > 0 {
@@ -833,6 +1144,13 @@ func main() {
 		// and the first near-miss of the escape dimension per (op, transport, grammar)
 		if strings.HasPrefix(k, "near-miss/") {
 			samples = append(samples, allSmp[k])
+		} else if strings.Contains(k, "desc=") || strings.Contains(k, "intercepted:") {
+			// the descriptor / decoration dimensions: the cases where a handler ran
+			// with a handler-carrying descriptor, and one unknown name per relation
+			if !strings.Contains(k, "desc=client-named") && !strings.Contains(k, "tokens:") &&
+				(strings.HasSuffix(k, ":registered/handler-ran") || (strings.HasSuffix(k, ":unknown/clean-failure") && strings.HasPrefix(k, "NewStream/inproc/"))) {
+				samples = append(samples, allSmp[k])
+			}
 		} else if i%3 == 0 {
 			samples = append(samples, allSmp[k])
 		}
@@ -840,13 +1158,51 @@ func main() {
 	// calibration: the harness reaches registered methods in both grammars, and
 	// both grammars do contain unregistered names that decode / truncate to a
 	// registered one (the escape dimension is populated, for both ops)
-	if classes["registered/handler-ran"] == 0 || classes["tokens:registered/handler-ran"] == 0 {
+	if rep.Violations == 0 && rep.KnownHits == 0 && (classes["registered/handler-ran"] == 0 || classes["tokens:registered/handler-ran"] == 0) {
 		fmt.Fprintln(os.Stderr, "INCONCLUSIVE: no registered method was ever reached; the harness is broken")
 		os.Exit(2)
+	}
+	// the descriptor and decoration dimensions are populated: every relation of a
+	// descriptor to the name occurred, with names that have to run their handler
+	// and with unknown names, plain and through WithInterceptor
+	// (whatever the outcome: this is about the grammar, not about the tree)
+	populated := map[string]int{}
+	for k, v := range classes {
+		populated[k[:strings.LastIndexByte(k, '/')]] += v
+	}
+	for _, k := range []string{
+		"desc=own:registered", "desc=other-registered:registered", "desc=unregistered:registered", "desc=client-named:registered",
+		"desc=other-registered:unknown", "desc=unregistered:unknown", "desc=client-named:unknown",
+		"desc=other-registered:other-arity", "desc=unregistered:malformed",
+	} {
+		for _, pre := range []string{"", "intercepted:", "tokens:"} {
+			if populated[pre+k] == 0 && !(pre == "tokens:" && k == "desc=other-registered:registered") { // T has a single stream
+				fmt.Fprintf(os.Stderr, "INCONCLUSIVE: the descriptor / decoration dimension is not populated: no case of %s%s\n", pre, k)
+				os.Exit(2)
+			}
+		}
+	}
+	if populated["intercepted:registered"] == 0 || populated["intercepted:unknown"] == 0 {
+		fmt.Fprintln(os.Stderr, "INCONCLUSIVE: the decoration dimension is not populated")
+		os.Exit(2)
+	}
+	// and on a tree without violations the harness does reach the handlers through
+	// every kind of descriptor and through the interceptors
+	if rep.Violations == 0 && rep.KnownHits == 0 {
+		for _, k := range []string{"desc=own:registered/handler-ran", "desc=other-registered:registered/handler-ran", "desc=unregistered:registered/handler-ran", "intercepted:registered/handler-ran", "intercepted:desc=own:registered/handler-ran", "tokens:desc=own:registered/handler-ran"} {
+			if classes[k] == 0 {
+				fmt.Fprintf(os.Stderr, "INCONCLUSIVE: no case of %s; the harness is broken\n", k)
+				os.Exit(2)
+			}
+		}
 	}
 	if nearTok == 0 || near == nearTok {
 		fmt.Fprintln(os.Stderr, "INCONCLUSIVE: the grammars contain no unregistered name that decodes to a registered one; the escape dimension is empty")
 		os.Exit(2)
+	}
+	midDesc := "the whole name list of (1)"
+	if rep.Tier == "thorough" {
+		midDesc = fmt.Sprintf("the quick tier's whole name list (1..4 segments, %d names)", len(midList))
 	}
 	alpha := toks.alpha
 	longSize := toksLong.size() - toksLong.offs[toksLong.maxLen]
@@ -856,12 +1212,14 @@ func main() {
 	os.Exit(rep.Finish("exploration", map[string]interface{}{
 		"evaluations":         evals,
 		"distinct_nontrivial": nontrivial,
-		"rule": "(1) segment grammar: every string of 1.." + fmt.Sprint(maxSegs) + " segments from {\"\",pkg.A,pkg.B,A,pkg,M,S,M2,x} joined by '/', plus every proper prefix and suffix of the four registered full names, " +
-			"plus the single-edit sweep around the four registered full names (each character replaced by its percent-escape, upper- and lower-case hex, with and without the leading slash; each of %2F %2f %2E %2e %25 %20 %3F %23 %zz % ? # + space . .. ./ ../ x/../ /. /.. %2E%2E/ /%2E inserted at each position; every character escaped, with and without the slashes, and double-escaped), " +
-			"x {Invoke, NewStream} x registered sets {none,{pkg.A(M unary,S stream)},{pkg.A,pkg.B(M,M2 unary)}} x {in-process, httpgrpc.NewServer(WithBasePath), http.ServeMux+HandleServices} x base paths (incl. ones with a literal '%'), same base path on Channel.BaseURL and server; plus cross-mount cases: for set {pkg.A,pkg.B} and every ordered pair of base paths denoting different mounts, the four registered full names x {Invoke, NewStream} from a client on the other base path must reach nothing (NotFound). " +
+		"rule": "(1) segment grammar: every string of 1.." + fmt.Sprint(maxSegs) + " segments from {\"\",pkg.A,pkg.B,A,pkg,M,S,M2,x} joined by '/', plus every prefix and suffix of the six full names of the richest registry D, " +
+			"plus the single-edit sweep around these six full names (each character replaced by its percent-escape, upper- and lower-case hex, with and without the leading slash; each of %2F %2f %2E %2e %25 %20 %3F %23 %zz % ? # + space . .. ./ ../ x/../ /. /.. %2E%2E/ /%2E inserted at each position; every character escaped, with and without the slashes, and double-escaped), " +
+			"x {Invoke, NewStream} x registered sets {none, A={pkg.A(M unary,S stream)}, AB={pkg.A,pkg.B(M,M2 unary)}, D={pkg.A(M unary; S,S2 streams),pkg.B(M,M2 unary; S stream)}} (thorough tier: D with " + midDesc + " on the HTTP carriers other than those with base paths /, /foo/, /c%d/x) x {in-process, httpgrpc.NewServer(WithBasePath), http.ServeMux+HandleServices} x base paths (incl. ones with a literal '%'), same base path on Channel.BaseURL and server; plus cross-mount cases: for sets AB and D and every ordered pair of base paths denoting different mounts, the registered full names x {Invoke, NewStream} from a client on the other base path must reach nothing (NotFound). " +
 			"(2) token grammar (character granularity, escapes): registry {s(m unary, t stream)}, whose full names are 4 tokens long; " + tokRule + ", x {Invoke, NewStream}; the alphabet is derived from the registry: '/', every character of the registered names, '.', the percent-escape of each of these in upper-case hex (and, where the alphabet above lists them, lower-case hex), %25, the invalid escapes %zz and a bare %, and ? # + space. " +
-			"Oracle in both: a handler runs only for the exact string /<registered service>/<registered method> (names that merely percent-decode to one, or are cut to one at ? or #, are unknown: NotFound / Unimplemented, zero handler runs). " +
-			"A case is non-trivial when the lookup ran against a non-empty registry (set != none), i.e. the name was actually matched against registered services/methods; each case is distinct by (transport, base, set, op, name). by_class_and_outcome gives the measured split (token grammar classes are prefixed tokens:); near_miss_cases counts the cases whose name is not registered but becomes a registered full name of the right arity when its escapes are decoded once or it is cut at the first ? or #.",
+			"(3) decoration dimension: how the services got into the registry: RegisterService directly (everything above) or through grpchan.WithInterceptor with counting unary and stream interceptors (per-FullMethod counters); sets AB and D x {Invoke, NewStream} x every transport and base path, with the whole name list of (1) in-process, with " + midDesc + " on both HTTP carriers with base paths /, /foo/, /c%d/x and with the core names elsewhere (core names: every string of 1..3 segments, the prefixes and suffixes of D's full names, each full name of D with one more segment before or after it: " + fmt.Sprint(len(core)) + " names). Added oracle: in a decorated registry the interceptor runs, with the registered full name, exactly as often as the handler (the registered handler is the intercepting wrapper), and not at all for names that run no handler. " +
+			"(4) descriptor dimension: what the client passes to NewStream as *grpc.StreamDesc; (1) and (2) use the bare client-made one (StreamName x, no Handler). The other descriptors, derived from the registry universe (D for the segment grammar " + fmt.Sprint(descIDs("D")[1:]) + ", T for the token grammar " + fmt.Sprint(descIDs("T")[1:]) + "): client:<n> client-made without Handler with StreamName n in {empty, each stream's simple name, a unary method's simple name}; raw:<svc>/<stream> the very element of the ServiceDesc.Streams slice handed to RegisterService, for every stream of the universe (for a set that registers the stream it is the registered descriptor: the named method's own, or another method's / another service's; for a set that does not, and for the raw descriptor of a service registered through WithInterceptor, its Handler is registered nowhere); twin: same service and stream name as a registered one, another handler, registered nowhere; foreign: two descriptors of a service registered nowhere, one with a registered stream's simple name, one with an unknown one. Every handler has its own counter. Crossed with: in-process: every set x {plain, WithInterceptor} x the whole name list of (1), and the whole token grammar of (2) (plain); HTTP (where the descriptor never crosses the wire): every carrier and base path x set D x {plain, WithInterceptor} x the core names (thorough tier: x " + midDesc + " on the carriers with base paths /, /foo/, /c%d/x). Oracle unchanged: the name alone decides, whatever the descriptor. by_class_and_outcome prefixes: desc=<relation of the descriptor to the name: client-named | own | other-registered | unregistered>:, intercepted: for a decorated registry. " +
+			"Oracle in all: a handler runs only for the exact string /<registered service>/<registered method> (names that merely percent-decode to one, or are cut to one at ? or #, are unknown: NotFound / Unimplemented, zero handler runs). " +
+			"A case is non-trivial when the lookup ran against a non-empty registry (set != none), i.e. the name was actually matched against registered services/methods; each case is distinct by (transport, base, set, decoration, op, descriptor, name). by_class_and_outcome gives the measured split (token grammar classes are prefixed tokens:); near_miss_cases counts the cases whose name is not registered but becomes a registered full name of the right arity when its escapes are decoded once or it is cut at the first ? or #.",
 		"by_class_and_outcome":   classes,
 		"names":                  len(nameList),
 		"token_alphabet":         alpha,
@@ -871,11 +1229,17 @@ func main() {
 		"token_evaluations":      tokEvals,
 		"near_miss_cases":        near,
 		"near_miss_cases_tokens": nearTok,
-		"configurations":         len(trs)*len(setOrder) + len(trs),
-		"jobs":                   len(jobs),
-		"violations_not_listed":  truncated,
-		"samples":                samples,
-		"exhaustive":             true,
+		"configurations":         len(configs),
+		"descriptors":            map[string]interface{}{"D": descIDs("D"), "T": descIDs("T")},
+		"descriptor_evaluations": descEvals,
+		"descriptor_evaluations_with_handler_carrying_descriptor": descHandlerEvals,
+		"decorated_registry_evaluations":                          decoEvals,
+		"core_names":                                              len(core),
+		"mid_names":                                               len(midList),
+		"jobs":                                                    len(jobs),
+		"violations_not_listed":                                   truncated,
+		"samples":                                                 samples,
+		"exhaustive":                                              true,
 	}, []string{
 		"HTTP side runs on an httptest recorder without a network (net/http's own connection handling is not exercised), but the server is handed only what crosses the wire: the request-target the client's URL serialises to, parsed again as net/http's server does; http.ServeMux is the one selected by the harness module's go line",
 		"base paths that http.ServeMux itself refuses at registration are outside the grammar",
@@ -883,6 +1247,8 @@ func main() {
 		"the same tolerance for literal dot-segments: a name that path cleaning (which the HTTP client applies together with the slash normalisation) turns into a registered name, e.g. /pkg.A/./M or /x/../pkg.A/M, may run exactly that handler or fail with a status error (class dot-segments-denoting-registered); escaped dots (%2E) are not dot-segments and must not be resolved",
 		"a registered method called with the other arity (unary name via NewStream or vice versa) may run that handler or fail with a status error; no other handler may run",
 		"an unknown name that the HTTP client refuses before sending anything (no request reached the carrier) may carry any non-OK status code instead of NotFound",
+		"the descriptor dimension is completely crossed with names, sets and decoration in-process, where the descriptor reaches the code that picks the handler; over HTTP the descriptor cannot cross the wire, so there it is swept over the richest set D with a shorter name list on every carrier and base path; the decoration dimension is crossed with the token grammar nowhere",
+		"every descriptor of the dimension has ClientStreams and ServerStreams set, like the bare one (the flags legitimately steer the client side of the stream)",
 		"the token grammar runs against its own minimal registry {s: m, t}, not crossed with the registry sets of the segment grammar; the single-edit sweep covers the escape dimension for the pkg.A/pkg.B registries on every configuration, but only one edit at a time",
 	}))
 }
